@@ -114,6 +114,7 @@ drv.CHECKS['C02'] = core_check('C02', 'BytesVerif.Props.C01', {'C02'}, sample=SA
 drv.CHECKS['C13'] = core_check('C13', 'BytesVerif.Props.C01', {'C13'}, sample=SAMPLE_SEQ)
 drv.CHECKS['C04'] = core_check('C04', 'BytesVerif.Props.C08', {'C04'}, sample=SAMPLE_SEQ)
 drv.CHECKS['C08'] = core_check('C08', 'BytesVerif.Props.C08', {'C08'}, sample=SAMPLE_SEQ)
+drv.CHECKS['C03'] = core_check('C03', 'BytesVerif.Props.C03', {'C03'}, sample=SAMPLE_SEQ)
 drv.CHECKS['C07'] = core_check('C07', 'BytesVerif.Props.C07', {'C07'}, sample=SAMPLE_SEQ)
 
 
